@@ -215,7 +215,7 @@ func TestVerif_C10(t *testing.T) {
 			marks.outcome(fmt.Sprintf("clean|staleLocal=%v|staleRemote=%v|freshRemote=%v", staleLocal > 0, staleRemote > 0, freshRemote > 0))
 		}
 		if len(hist) == 3 && len(before.Entries) >= 2 && (last.Op == "disc" || last.Op == "clean") {
-			col.sample(sc, hist, after.short())
+			col.sample(sc, hist, "before "+before.short()+" after "+after.short())
 		}
 	}
 	rtRun(r, c10Scenarios(r), oracle)
